@@ -64,13 +64,28 @@ class StatsDict(dict):
         self._log, self._n = log, nidx
 
     def __setitem__(self, k, v):
-        if k in ("num_item_discarded", "num_item_received") and v != self.get(k):
+        if k in ("num_item_discarded", "num_item_received") and (v != self.get(k) or v):
+            # every count attempt is an event of the trace -- also one that leaves the counter where it was (`=+ 1`)
             f = sys._getframe(1)
             it = f.f_locals.get("item")
             if k == "num_item_received":
                 it = getattr(f.f_locals.get("self"), "item_in_process", it)
             self._log.lines.append("%s %d %d %d" % ("D" if k == "num_item_discarded" else "R", self._log.env.now, self._n,
                                                     getattr(it, "_vidx", -1)))
+            if k == "num_item_discarded":
+                # implementation-side observation: a node that has one out-edge, or looks at all of them (FIRST_AVAILABLE), drops
+                # an item although a conveyor among its out-edges would admit an entry right now (the belt store's own
+                # side-effect-free admission test) -- conveyors have no "room" the oracle could count, so this asks the store
+                try:
+                    node = self._log.nodes[self._n]
+                    outs = list(getattr(node, "out_edges", None) or [])
+                    pol = self._log.cfg["nodes"][self._n]["outsel"][0]
+                    if len(outs) == 1 or pol == "FA":
+                        for ed in outs:
+                            if hasattr(ed, "belt") and hasattr(ed.belt, "can_reserve_put") and ed.belt.can_reserve_put():
+                                self._log.lines.append("OBS %d %d droproom %d 0" % (self._log.env.now, int(ed.id[1:]), self._n))
+                except Exception:  # noqa
+                    pass
         super().__setitem__(k, v)
 
 
@@ -296,6 +311,7 @@ def run_impl(cfg):
     log = Log()
     env = simpy.Environment()
     log.env = env
+    log.cfg = cfg
     srcmod = mods["nodes.source"]
     BaseItem, BasePallet = srcmod.Item, srcmod.Pallet
     utils = common.load("utils.utils")
